@@ -39,6 +39,21 @@ func moveGeom(g geometry.Geometry, dx, dy float64) geometry.Geometry {
 	panic("unknown geometry")
 }
 
+// moveSrcIdx: the index options of the object a moved variant is derived
+// from (a function of the offset, so that replay needs nothing extra): the
+// first offset moves an r-tree-indexed source, the second a quadtree-indexed
+// one (MinPoints 1: even a triangle carries an index), the third an
+// index-free one.
+func moveSrcIdx(dx float64) *geometry.IndexOptions {
+	switch dx {
+	case 3:
+		return idxCfgs[1].Opts
+	case 1048576 - 8:
+		return idxCfgs[2].Opts
+	}
+	return idxNone
+}
+
 // both-operand transforms
 type bothXf struct {
 	name string
@@ -57,7 +72,7 @@ var c12Both = func() []bothXf {
 		out = append(out, bothXf{name: fmt.Sprintf("translate(%g,%g)", d[0], d[1]), t: Xf{Scale: 0.5, Tx: d[0], Ty: d[1]}})
 		out = append(out, bothXf{name: fmt.Sprintf("move(%g,%g)", d[0], d[1]), t: ident, move: &d})
 	}
-	for _, s := range []float64{0.125, 2, 1024} {
+	for _, s := range []float64{0.125, 2, 1024, 1.0 / (1 << 29), 1.0 / (1 << 40)} {
 		out = append(out, bothXf{name: fmt.Sprintf("scale(%g)", s), t: Xf{Scale: 0.5 * s}})
 	}
 	return out
@@ -121,7 +136,7 @@ func mkC12(s *shp) *c12shape {
 			v.E = symShape(b.sym, s.E)
 		}
 		if b.move != nil {
-			v.G = moveGeom(s.G, b.move[0], b.move[1])
+			v.G = moveGeom(geomOf(s.E, ident, moveSrcIdx(b.move[0])), b.move[0], b.move[1])
 		} else {
 			v.G = geomOf(v.E, v.t, idxNone)
 		}
@@ -162,6 +177,7 @@ func runC12(r *rt.Run) {
 		names = append(names, b.name)
 	}
 	r.Bounds["transforms_both"] = names
+	r.Bounds["move_sources"] = "Move(3,-5) from an r-tree-indexed source, Move(2^20-8,-2^19) from a quadtree-indexed source (MinPoints 1), Move(-1.5,0.25) from an index-free source"
 	r.Bounds["reencodings_one"] = "ring: every other start vertex, reversed, unclosed, holes reversed / restarted; line: reversed"
 	r.Rule = "every pair over exhaustively built pools (3x3 symmetric lattice) x every listed transform of both operands and every re-encoding of either operand; 4 answers per pair (contains both ways, intersects both ways) compared with the untransformed answers; non-trivial = bounding boxes meet"
 	r.Assume = []string{"valid operands on dyadic coordinates, magnitude <= 2^20", "trigger is oracle-free; verif/mc/exact (invariant by construction) only attributes a change to the wrong side"}
@@ -288,7 +304,7 @@ func evalC12(c *rt.Case) (bool, string, string, error) {
 	if !ok1 || !ok2 {
 		return false, "", "", fmt.Errorf("coordinates outside the exact domain")
 	}
-	ga, gb := moveGeom(geomOf(ea, ident, idxNone), dx, dy), moveGeom(geomOf(eb, ident, idxNone), dx, dy)
+	ga, gb := moveGeom(geomOf(ea, ident, moveSrcIdx(dx)), dx, dy), moveGeom(geomOf(eb, ident, moveSrcIdx(dx)), dx, dy)
 	switch c.Op {
 	case "intersects":
 		want, got := exact.Intersects(ea, eb), libIntersects(ga, gb)
